@@ -20,7 +20,7 @@
 -/
 import NutsProofs.Props.C14
 import Nuts.Model.DB
-import NutsProofs.Facts
+import NutsProofs.Pins.Backup
 namespace NutsProofs.C18
 open Nuts.Model.Conc Nuts.Model.DB NutsProofs.Conc
 
